@@ -68,7 +68,9 @@ Section Render.
     | EBetween neg l s x =>
         opt_app (opt_app (opt_app (opt_app (opt_app (wrap (Some 9%nat) (eprec l) (render l)) (Some (if neg then bs " NOT" else []))) (lit " BETWEEN "))
                                   (wrap (Some 9%nat) (eprec s) (render s))) (lit " AND ")) (wrap (Some 9%nat) (eprec x) (render x))
-    | ESelector x i => opt_app (opt_app (wrap (Some 1%nat) (eprec x) (render x)) (lit ".")) (quote_id i)
+    | ESelector x i =>
+        (* an integer literal and the dot are kept apart: "1.x" would lex as a number glued to an identifier *)
+        opt_app (opt_app (wrap (Some 1%nat) (eprec x) (render x)) (Some (match x with EInt _ _ _ _ => [x20; x2e] | _ => [x2e] end))) (quote_id i)
     | EIndex _ x ix => opt_app (opt_app (opt_app (wrap (Some 1%nat) (eprec x) (render x)) (lit "[")) (render_s ix)) (lit "]")
     | EParen _ _ x => opt_app (opt_app (lit "(") (render x)) (lit ")")
     | ETuple _ _ vs => opt_app (opt_app (lit "(") (join_opt (bs ", ") ((fix go (l : list expr) := match l with [] => [] | x :: r => render x :: go r end) vs) true)) (lit ")")
@@ -192,7 +194,9 @@ Section Proof.
     - intros p neg l IH. start. child l IH. fin.
     - intros p neg l v IH. start. child l IH. fin.
     - intros neg l s x IHl IHs IHx. start. child l IHl. child s IHs. child x IHx. fin.
-    - intros x i IH. start. child x IH. unfold ExprModel.t_ident at 1. cbn [pval_of]. fold (ExprModel.t_ident i). rewrite info_ident. prep. crunch.
+    - intros x i IH. start. child x IH. unfold ExprModel.t_ident at 1. cbn [pval_of]. fold (ExprModel.t_ident i). rewrite info_ident.
+      destruct x; cbn [to_tree] in E; unfold ExprModel.t_ident in E; inversion E; subst ty fs; prep; prep;
+        unfold ty_of; cbn [to_tree]; unfold ExprModel.t_ident; cbn [String.eqb Ascii.eqb Bool.eqb]; crunch.
     - intros rb x ix IHx IHs. start. child x IHx.
       destruct (sub_is_node ix) as (ts & fss & Es). rewrite Es in *. rewrite render_index. prep. rewrite IHs. crunch.
     - intros lp rp x IH. start. child x IH. fin.
@@ -233,7 +237,7 @@ Section Compose.
     - intros p neg l IH. cbn [erase render]. rewrite IH. fold (strip l). rewrite eprec_strip. reflexivity.
     - intros p neg l v IH. cbn [erase render]. rewrite IH. fold (strip l). rewrite eprec_strip. reflexivity.
     - intros neg l s x IHl IHs IHx. cbn [erase render]. rewrite IHl, IHs, IHx. fold (strip l) (strip s) (strip x). rewrite !eprec_strip. reflexivity.
-    - intros x i IH. cbn [erase render]. rewrite IH. fold (strip x). rewrite eprec_strip. reflexivity.
+    - intros x i IH. cbn [erase render]. rewrite IH. fold (strip x). rewrite eprec_strip. destruct x; reflexivity.
     - intros rb x ix IHx IHs. change (erase (fun b => b) (EIndex rb x ix)) with (EIndex 0 (erase (fun b => b) x) (erase_s (fun b => b) ix)).
       rewrite !render_index. rewrite IHx, IHs. fold (strip x). rewrite eprec_strip. reflexivity.
     - intros lp rp x IH. cbn [erase render]. rewrite IH. reflexivity.
